@@ -225,6 +225,27 @@ func rangeElem(h *ssa.BasicBlock) ssa.Value {
 	if rangeCollectionOfHeader(h) == nil {
 		return nil
 	}
+	// consuming loop: element = rest[0] where rest is the header's consuming phi
+	if iff, ok := h.Instrs[len(h.Instrs)-1].(*ssa.If); ok {
+		if cmp, ok := iff.Cond.(*ssa.BinOp); ok && (cmp.Op == token.GTR || cmp.Op == token.NEQ) {
+			if ln, ok := cmp.X.(*ssa.Call); ok && calleeName(ln) == "builtin:len" && len(ln.Call.Args) == 1 {
+				if phi := consumingPhi(h, ln.Call.Args[0]); phi != nil {
+					for lb := range naturalLoop(h) {
+						for _, in := range lb.Instrs {
+							if u, ok := in.(*ssa.UnOp); ok && u.Op == token.MUL {
+								if ia, ok := u.X.(*ssa.IndexAddr); ok && ia.X == ssa.Value(phi) {
+									if k, ok := constInt(ia.Index); ok && k == 0 {
+										return u
+									}
+								}
+							}
+						}
+					}
+					return nil
+				}
+			}
+		}
+	}
 	// slice range: body = Succs[0]; element = load of IndexAddr(coll, idx)
 	body := h.Succs[0]
 	for _, in := range body.Instrs {
